@@ -433,6 +433,8 @@ def s_templates(tier):
               {"rt": ["Qint[4]"], "i": ["0", "1"], "j": ["0", "1"], "op": OPs, "l": ["a", "1"]}))
     T.append(("def tfun(a: bool, b: bool) -> {rt}:\n    c = [[1, 2], [3, 0]]\n    i = {ei}\n    j = {ej}\n    return c[i][j]\n",
               {"rt": ["Qint[2]", "Qint[4]"], "ei": ["0", "1"], "ej": ["0", "1"]}))
+    T.append(("def tfun(a: Qint[2], b: Qint[2]) -> {rt}:\n    c = [[1, 2, 3], [3, 0, 1]]\n    d = a\n    for x in c[{i}]:\n        d {op}= x\n    return d + len(c[{j}]) + len(c)\n",
+              {"rt": ["Qint[4]"], "i": ["0", "1"], "j": ["0", "1"], "op": OPs}))
     # print ignored, expression statements
     T.append(("def tfun({sig}) -> {rt}:\n    print(a)\n    c = {e}\n    print(c, b)\n    return c\n", {"sig": SIG1, "rt": ["Qint[4]"], "e": Es}))
     if tier == "thorough":
